@@ -461,7 +461,7 @@ def explosive(y_before, y_after, factor=1e3):
     a = max([abs(v) for v in y_after if fin(v)] + [0.0])
     return a > factor * b
 
-def oracle_c09(c, out):
+def oracle_c09(c, out, noise=None):
     s = parse_solve(out) if out else None
     if s is None:
         return f"Solve did not return a result: '{(out or '')[:80]}'"
@@ -485,6 +485,8 @@ def oracle_c09(c, out):
             pass
         # rounding envelope: each implicit solve can amplify a unit round-off by about T*||J||
         tol = max(1e-9, 1e-13 * amplification(m, s["final"])) * scale * nsteps
+        if noise is not None and cidx < len(noise):
+            tol = max(tol, 1e3 * noise[cidx])       # measured: what this run does to a rounding-sized perturbation
         if tol > 1e-3 * scale:
             # the a-priori envelope is itself a sizeable fraction of the sum (stiff problem, many steps, un-pivoted solves):
             # nothing can be concluded from this run
@@ -1389,8 +1391,32 @@ def g_c09(r, tier, env, Ls):
         p = gen_solve_problem(r, env, Ls, conserve=True, stiff=r.chance(0.3))
         p["y"] = [float(r.rng(1, 9)) if r.chance(0.5) else r.logu(1e-3, 1e2) for _ in p["y"]]
         meta = dict(p)
-        cs.append(Case(problem_line(p, clamp=0, trace=0), meta, "solve-conserve", oracle=oracle_c09, tags=["integ=%d" % p["integ"]]))
+        gid = len(cs)
+        cs.append(Case(problem_line(p, clamp=0, trace=0), meta, "solve-conserve", tags=["integ=%d" % p["integ"]],
+                       group=(("c09", gid), grp_drift_noise)))
+        # the same run with the initial state perturbed in the last bits: the oracle's rounding allowance is what THIS run
+        # does to a rounding-sized perturbation (un-pivoted solves of indefinite matrices amplify without a usable bound)
+        q = dict(p); q["y"] = [v * (1.0 + 2.0 ** -50) for v in p["y"]]
+        m2 = dict(meta); m2["y"] = q["y"]; m2["noise_twin"] = True
+        cs.append(Case(problem_line(q, clamp=0, trace=0), m2, "solve-conserve", tags=["noise_twin"], group=(("c09", gid), grp_drift_noise)))
     return cs
+
+def grp_drift_noise(a, b):
+    """(case, rounding-perturbed twin): if the twin's weighted sums differ from the case's by an amount comparable with the
+    case's drift, the drift is this run's rounding sensitivity, not a broken conservation law"""
+    a.noise_w = None
+    sa, sb = parse_solve(a.impl_out or ""), parse_solve(b.impl_out or "")
+    if sa is None or sb is None or len(sa["y"]) != len(sb["y"]):
+        return None
+    if sa["status"] != sb["status"] or sa["stats"] != sb["stats"]:
+        a.noise_w = "diverged"
+    else:
+        m = a.meta; ns, w = m["ns"], m["w"]
+        a.noise_w = [abs(sum(w[i] * (sa["y"][c * ns + i] - sb["y"][c * ns + i]) for i in range(ns))) for c in range(m["ncell"])]
+    if a.noise_w == "diverged":
+        a.tags.append("chaotic_run_skipped")     # a 2^-50 perturbation changes the step history: nothing is conclusive
+        return None
+    return oracle_c09(a, a.impl_out, noise=a.noise_w)
 
 def g_c10(r, tier, env, Ls):
     n = 300 if tier == "quick" else 5000
